@@ -7,14 +7,21 @@ import Juniper.Generated.XTime
 two-arm LTS whose arms and results are the generated `sleepSelect` table and `sleepArm*Ret`.
 
 `JitterTicker`: an LTS with one label per atomic step (every critical section of the Go code is
-held under `t.m`, which the generated `*Locked` facts re-establish on every run; if one of them is
-false the model sets `unmodelled`, which the theorems exclude): environment labels `advance`,
-`recv`, `reset`, `stop`; internal labels `fire` (the runtime starts the `AfterFunc` goroutine of a due
-timer) and `runCb` (that goroutine takes the mutex and runs). The value drawn from `rand.Int63n` is
-part of the label. Ghost fields: `sent` (every tick put into the channel, with the `d - jitter` in
-force), `stopped`.
+held under `t.m`; that is re-established on every run by the generated `newLocked` / `resetLocked` /
+`stopLocked` facts and by the regenerated statement lists of the callback, of `Stop` and of `Reset`
+having exactly the shape the labels mirror - `cbMirrored`, `stopMirrored`, `resetMirrored`; if one
+of them is false the model sets `unmodelled`, which the theorems exclude): environment labels
+`advance`, `recv`, `reset`, `stop`; internal labels `fire` (the runtime starts the `AfterFunc`
+goroutine of a due timer) and `runCb` (that goroutine takes the mutex and runs). The value delivered
+by the random source (`rand.Int63n`, or the accepted draw of the `rand.Uint64` rejection loop) is part
+of the label. Ghost fields: `sent` (every tick put into the channel, with the `d - jitter` in force),
+`stopped`.
 
-Times are `Int` nanoseconds; Go's `int64` overflow is outside the model.
+The arithmetic of `schedule` (`schedRandBound`, `schedRejects`, `schedNext`) is generated with Go's
+fixed-width semantics (`wrap64` / `wrapU64` of `Juniper.Facts`): `t.d` and `t.jitter` are int64 values
+and every overflow of the source is an overflow of the model. Instants (`now`, `due`, timestamps) are
+mathematical integers: `now + next` is the instant the runtime is asked to fire the timer at (the Go
+runtime saturates its internal `when`; a timer that far away never fires - trusted runtime).
 -/
 namespace Juniper.Model.XTime
 open Juniper.Facts Juniper.Gen.XTime
@@ -167,19 +174,60 @@ inductive TLabel where
   | stop
   deriving DecidableEq, Repr
 
-/-- `schedule()`, called with the mutex held; `r` is what `rand.Int63n` returns. `none`: `r` is not a
-possible value. -/
+/-- What the random source can deliver to `schedule()` for this jitter: `none` = `rand.Int63n` is
+called with an argument `≤ 0` and panics; `some b` = `b` says whether `r` is a possible (accepted)
+value. On the `rand.Int63n` path that is `0 ≤ r < bound`; on the path of the rejection loop over
+`rand.Uint64` every uint64 value the loop condition does not throw away (rejected draws change
+nothing and are not labels); on a path without a draw only the dummy value 0. -/
+def drawOk (jitter r : Int) : Option Bool :=
+  if schedUsesInt63n jitter then
+    let bound := schedRandBound jitter
+    if bound ≤ 0 then none else some (decide (0 ≤ r ∧ r < bound))
+  else if schedUsesUint64 jitter then
+    some (decide (0 ≤ r ∧ r < 18446744073709551616) && !schedRejects jitter r)
+  else some (decide (r = 0))
+
+/-- `schedule()`, called with the mutex held; `r` is what the random source delivers. `none`: `r` is
+not a possible value. -/
 def schedule (s : TState) (r : Int) : Option TState :=
   let orph := if schedStopsOld then s.orphans else s.timer.toList ++ s.orphans
-  let bound := schedRandBound s.jitter
-  if bound ≤ 0 then some { s with panicked := true, lastPanic := true, timer := none, orphans := orph }
-  else if r < 0 ∨ bound ≤ r then none
-  else
+  match drawOk s.jitter r with
+  | none => some { s with panicked := true, lastPanic := true, timer := none, orphans := orph }
+  | some false => none
+  | some true =>
     let gen' := s.gen + schedBumpsGen
     let captured := if schedCapturesGen then gen' else s.gen
     some { s with
       gen := gen', hasTimer := true, orphans := orph,
-      timer := some ⟨s.now + schedTimerDur (schedNext s.d s.jitter r), captured⟩ }
+      timer := some ⟨s.now + schedNext s.d s.jitter r, captured⟩ }
+
+/-- `p` is a prefix / suffix of the statement text `s` (on character lists: reducible by `decide`). -/
+def hasPrefix (p s : String) : Bool := p.toList.isPrefixOf s.toList
+def hasSuffix (p s : String) : Bool := p.toList.reverse.isPrefixOf s.toList.reverse
+
+/-- The statement list of the timer callback has the shape the label `runCb` mirrors: the whole body
+is one critical section of `t.m` - lock; test (`cbGenOk`); inside the test the non-blocking send
+(`cbSelect`) and then the re-arming; unlock - with nothing else in it. -/
+def cbMirrored : Bool :=
+  match cbStmts with
+  | [lock, test, sel, sched, close, unlock] =>
+    lock == "t.m.Lock()" && hasPrefix "if " test && hasSuffix " {" test && hasPrefix "select {" sel &&
+      sched == "t.schedule()" && close == "}" && unlock == "t.m.Unlock()"
+  | _ => false
+
+/-- `Stop` is exactly: lock; stop the timer; bump `gen`; clear the timer; unlock (label `stop`). -/
+def stopMirrored : Bool :=
+  stopStmts == ["t.m.Lock()", "t.timer.Stop()", "t.gen++", "t.timer = nil", "t.m.Unlock()"]
+
+/-- `Reset` is exactly: the two validation panics (before the lock); lock; store `d`, `jitter`;
+`schedule()`; unlock (label `reset`). The guards and panics themselves: `resetPanicsD/J`. -/
+def resetMirrored : Bool :=
+  match resetStmts with
+  | [if1, p1, c1, if2, p2, c2, lock, sd, sj, sched, unlock] =>
+    hasPrefix "if " if1 && hasPrefix "panic(" p1 && c1 == "}" && hasPrefix "if " if2 && hasPrefix "panic(" p2 &&
+      c2 == "}" && lock == "t.m.Lock()" && sd == "t.d = d" && sj == "t.jitter = jitter" &&
+      sched == "t.schedule()" && unlock == "t.m.Unlock()"
+  | _ => false
 
 /-- `NewJitterTicker(d, jitter)` at instant `now`. -/
 def create (now d j r : Int) : Option TState :=
@@ -215,7 +263,7 @@ def tstep (s0 : TState) (l : TLabel) : Option TState :=
     match s.pending[i]? with
     | none => none
     | some g =>
-      let s0 := { s with pending := s.pending.eraseIdx i, unmodelled := s.unmodelled || !cbLocked }
+      let s0 := { s with pending := s.pending.eraseIdx i, unmodelled := s.unmodelled || !cbMirrored }
       if cbGenOk s0.gen g then
         match cbSend s0 with
         | some s1 => schedule s1 r
@@ -227,7 +275,7 @@ def tstep (s0 : TState) (l : TLabel) : Option TState :=
     | [] => none
   | .reset d j r =>
     if resetPanicsD d j || resetPanicsJ d j then (if r = 0 then some { s with lastPanic := true } else none)
-    else schedule { s with d := d, jitter := j, stopped := false, unmodelled := s.unmodelled || !resetLocked } r
+    else schedule { s with d := d, jitter := j, stopped := false, unmodelled := s.unmodelled || !(resetLocked && resetMirrored) } r
   | .stop =>
     if stopStopsTimer && !s.hasTimer then some { s with panicked := true, lastPanic := true }
     else some { s with
@@ -235,7 +283,7 @@ def tstep (s0 : TState) (l : TLabel) : Option TState :=
       orphans := if stopStopsTimer then s.orphans else s.timer.toList ++ s.orphans,
       gen := s.gen + stopBumpsGen,
       hasTimer := if stopClearsTimer then false else s.hasTimer,
-      unmodelled := s.unmodelled || !stopLocked,
+      unmodelled := s.unmodelled || !(stopLocked && stopMirrored),
       stopped := true }
 
 inductive TReach (s0 : TState) : TState → Prop where
@@ -244,10 +292,17 @@ inductive TReach (s0 : TState) : TState → Prop where
 
 /-! ### Executable exploration (conformance driver) -/
 
-/-- every value `rand.Int63n` may return in state `s` (one dummy value when it would panic) -/
+/-- The values of the random source the conformance engine enumerates: all of them when they are few
+(the harness uses jitters of a few ns for the scripts it checks against the model), the two ends of
+the range otherwise (`rand.Int63n` path) - scripts with large jitter are judged by the monitors only -,
+one dummy value when `schedule` would panic. -/
 def randChoices (jitter : Int) : List Int :=
-  let b := schedRandBound jitter
-  if b ≤ 0 then [0] else (List.range b.toNat).map Int.ofNat
+  if schedUsesInt63n jitter then
+    let b := schedRandBound jitter
+    if b ≤ 0 then [0]
+    else if b ≤ 4096 then (List.range b.toNat).map Int.ofNat
+    else [0, b - 1]
+  else [0]
 
 /-- all internal (runtime / callback goroutine) successors of `s` -/
 def internalSucc (s : TState) : List TState :=
